@@ -55,7 +55,7 @@ static const dim_t UNUSED = (dim_t)-1;
 static std::string cs(cref c) {
   // a corrupted row may hold garbage of millions of digits: name it instead of printing it
   size_t digits = mpz_sizeinbase(raw_value(c).get_mpz_t(), 10);
-  if (digits > 120) return "HUGE" + std::to_string(digits);
+  if (digits > 3000) return "HUGE" + std::to_string(digits);
   std::ostringstream o; o << c; return o.str();
 }
 static std::string ls(long v) { return std::to_string(v); }
@@ -263,6 +263,11 @@ struct RowH {
     return k <= S[a].size() ? S[a].lower_bound(k) : S[a].end();
   }
   bool okslot(long a) const { return a >= 0 && a < K; }
+  // keep the numbers printable: products of products double their length at every step
+  bool big(int a) const {
+    for (dim_t i = 0; i < D[a].size(); ++i) if (mpz_sizeinbase(raw_value(D[a][i]).get_mpz_t(), 10) > 300) return true;
+    return false;
+  }
   void apply(const Op& o) {
     const std::string& n = o.name; ++step;
     J.line("P " + hid + "." + ls(step) + " row " + o.text());
@@ -371,7 +376,7 @@ struct RowH {
     else if (n == "norm") { S[a].normalize(); D[a].normalize(); out(o, "-", both(a)); }
     else if (n == "lc" || n == "lcr") {
       int b = (int)o.l(1); if (!okslot(b) || b == a) { --step; return; }
-      Coefficient c1 = o.c(2), c2 = o.c(3); if (c1 == 0 || c2 == 0) { --step; return; }
+      Coefficient c1 = o.c(2), c2 = o.c(3); if (c1 == 0 || c2 == 0 || big(a) || big(b)) { --step; return; }
       dim_t s = 0, e = sz;
       if (n == "lcr") { s = (dim_t)o.l(4); e = (dim_t)o.l(5); if (s > e || e > sz || e > S[b].size()) { --step; return; } }
       else if (S[b].size() != sz) { --step; return; }
@@ -387,7 +392,7 @@ struct RowH {
     }
     else if (n == "comb") {      // combine / combine_needs_first / combine_needs_second with functors
       int b = (int)o.l(1); long mode = o.l(2); Coefficient c1 = o.c(3), c2 = o.c(4);
-      if (!okslot(b) || b == a || S[b].size() != sz || c1 == 0 || c2 == 0) { --step; return; }
+      if (!okslot(b) || b == a || S[b].size() != sz || c1 == 0 || c2 == 0 || big(a) || big(b)) { --step; return; }
       if (mode == 0) { F_scale f = { c1 }; G_lin g = { c1, c2 }; H_lin h = { c2 }; S[a].combine(S[b], f, g, h); D[a].combine(D[b], f, g, h); }
       else if (mode == 1) { F_zero f; G_mul g; S[a].combine_needs_first(S[b], f, g); D[a].combine_needs_first(D[b], f, g); }
       else { G_addmul g = { c2 }; H_lin h = { c2 }; S[a].combine_needs_second(S[b], g, h); D[a].combine_needs_second(D[b], g, h); }
@@ -475,6 +480,12 @@ struct ExprH {
     J.line("X " + hid + "." + ls(step) + " " + o.text() + " | " + ret + sections);
   }
   bool okslot(long a) const { return a >= 0 && a < K; }
+  bool big(int a) const {
+    const Linear_Expression& e = *Ed[a];
+    if (mpz_sizeinbase(raw_value(e.inhomogeneous_term()).get_mpz_t(), 10) > 300) return true;
+    for (dim_t i = 0; i < e.space_dimension(); ++i) if (mpz_sizeinbase(raw_value(e.coefficient(Variable(i))).get_mpz_t(), 10) > 300) return true;
+    return false;
+  }
   // operand in the same (mix = 0) or in the other (mix = 1) representation
   const Linear_Expression& arg(int b, bool for_dense, long mix) { return (for_dense != (mix != 0)) ? *Ed[b] : *Es[b]; }
   static Variables_Set vset(const Op& o, size_t from, dim_t dim) {
@@ -486,6 +497,8 @@ struct ExprH {
     int a = (int)o.l(0); if (!okslot(a)) { --step; return; }
     Linear_Expression& d = *Ed[a]; Linear_Expression& s = *Es[a];
     dim_t dim = d.space_dimension();
+    if ((n == "mul" || n == "mulr" || n == "add" || n == "sub" || n == "addmul" || n == "submul" || n == "lc3" || n == "lclax"
+         || n == "lcv" || n == "lcr" || n == "lclaxr") && (big(a) || big(0) || big(1) || big(2))) { --step; return; }
     if (n == "new") { dim_t k = (dim_t)o.l(1); if (k > 300) { --step; return; }
       d = Linear_Expression(DENSE); s = Linear_Expression(SPARSE); d.set_space_dimension(k); s.set_space_dimension(k); out(o, "-", both(a)); }
     else if (n == "setc") { dim_t v = (dim_t)o.l(1); if (v >= dim) { --step; return; } d.set_coefficient(Variable(v), o.c(2)); s.set_coefficient(Variable(v), o.c(2)); out(o, "-", both(a)); }
